@@ -237,6 +237,9 @@ func (d *Data) handleBlocks(ctx *datastore.VersionedCtx, w http.ResponseWriter, 
 			server.BadRequest(w, r, err)
 		}
 		timedLog.Infof("HTTP GET blocks at size %s, offset %s (%s)", parts[4], parts[5], r.URL)
+	} else if strings.ToLower(r.Method) != "post" {
+		server.BadRequest(w, r, "only GET or POST action allowed for /blocks endpoint")
+		return
 	} else {
 		var indexing bool
 		if queryStrings.Get("noindexing") != "true" {
@@ -251,6 +254,10 @@ func (d *Data) handleBlocks(ctx *datastore.VersionedCtx, w http.ResponseWriter, 
 
 func (d *Data) handleIngest(ctx *datastore.VersionedCtx, w http.ResponseWriter, r *http.Request) {
 	// POST <api URL>/node/<UUID>/<data name>/ingest-supervoxels[?scale=...]
+	if strings.ToLower(r.Method) != "post" {
+		server.BadRequest(w, r, "only POST action allowed for /ingest-supervoxels endpoint")
+		return
+	}
 	timedLog := dvid.NewTimeLog()
 
 	queryStrings := r.URL.Query()
@@ -973,6 +980,9 @@ func (d *Data) handleDataRequest(ctx *datastore.VersionedCtx, w http.ResponseWri
 					return
 				}
 			}
+		} else if strings.ToLower(r.Method) != "post" {
+			server.BadRequest(w, r, "only GET or POST action allowed for 3d /%s endpoint", parts[3])
+			return
 		} else {
 			if isotropic {
 				server.BadRequest(w, r, "can only POST 'raw' not 'isotropic' images")
